@@ -71,10 +71,15 @@ END { print NR }`,
 	"blocked-system":     `BEGIN { print "s1"; tick(1); r = system(cmdhang); tick(2); for (i = 0; i < 100000; i++) x++ }`,
 	"blocked-close":      `BEGIN { print "s1"; print "c1" | cmdhang; tick(1); close(cmdhang); tick(2); for (i = 0; i < 100000; i++) x++ }`,
 	"blocked-getline":    `BEGIN { print "s1"; tick(1); cmdhang | getline x; tick(2); for (i = 0; i < 100000; i++) x++ }`,
+	// the command spawns a grandchild that keeps the pipe open, then both hang: killing the
+	// command does not end the read (WaitDelay must)
+	"blocked-getline-grandchild": `BEGIN { print "s1"; tick(1); cmdspawn | getline x; tick(2); for (i = 0; i < 100000; i++) x++ }`,
+	// never cancelled, standard output fails while a system() child's output is copied to it
+	"system-sinkfail": `BEGIN { r = system(cmdemit); printf "r=%s\n", r > "out1"; close("out1"); tick(1); print "after" }`,
 }
 
 var c15Archs = []string{"print-all", "print-all-end", "while", "for", "recursion", "forin", "forin-nobody", "forin-nested", "records", "patterns", "pattern-only", "range", "end", "outputs", "getline-file"}
-var c15ChildArchs = []string{"stdin-share", "system-loop", "getline-cmd", "big-to-cmd", "blocked-system", "blocked-close", "blocked-getline", "blocked-grandchild"}
+var c15ChildArchs = []string{"stdin-share", "system-loop", "getline-cmd", "big-to-cmd", "blocked-system", "blocked-close", "blocked-getline", "blocked-grandchild", "blocked-getline-grandchild", "system-sinkfail"}
 
 // c15Ctx is a context the simulator can close at an instant of its choosing.
 type c15Ctx interface {
@@ -121,6 +126,7 @@ var c15funcs = map[string]any{
 
 type c15Result struct {
 	Stdout, Files  string
+	Stderr         string
 	Status         int
 	Err            error
 	Panic          string
@@ -185,7 +191,7 @@ func (c15Engine) Gen(r *core.Rand, tier string, i int) any {
 			return sc
 		}
 		sc.Cancel = core.Pick(r, []string{"never", "script", "script", "step"})
-		if sc.Arch == "stdin-share" {
+		if sc.Arch == "stdin-share" || sc.Arch == "system-sinkfail" {
 			sc.Cancel = "never" // "a context that is never cancelled behaves exactly like Execute"
 		}
 		sc.CancelTick = r.Range(1, sc.N)
@@ -286,8 +292,12 @@ func c15Exec(sc *c15Scn, cancel string, cancelStep, cancelTick int, log *core.Lo
 		_ = os.Remove(fs.Path("!stdin"))
 		stdin = f
 	}
+	errSink := core.NewSimSink("stderr", nil)
+	if sc.Arch == "system-sinkfail" {
+		sink.FailAt = 3 + sc.N
+	}
 	cfg := &interp.Config{
-		Stdin: stdin, Output: sink, Error: core.NewSimSink("stderr", nil), Funcs: c15funcs, Environ: []string{},
+		Stdin: stdin, Output: sink, Error: errSink, Funcs: c15funcs, Environ: []string{},
 		OpenFile: fs.Open, NewlineOutput: interp.RawNewlineMode,
 		Vars: []string{"N", fmt.Sprint(sc.N), "D", fmt.Sprint(sc.Depth)},
 	}
@@ -319,7 +329,7 @@ func c15Exec(sc *c15Scn, cancel string, cancelStep, cancelTick int, log *core.Lo
 			fmt.Fprintf(&lines, "l%d\n", i)
 		}
 		cfg.Vars = append(cfg.Vars, "cmd", "co;save:"+fs.Path("cmdsaved"), "cmdexit", "ce;exit:0",
-			"cmdlines", "cl;emit:"+lines.String()+";exit:0", "cmdhang", "h;hang", "cmdspawn", "h;spawn:g;hang", "cmdline1", "l1;line1;exit:0")
+			"cmdlines", "cl;emit:"+lines.String()+";exit:0", "cmdemit", "em;emit:"+lines.String()+lines.String()+";exit:0", "cmdhang", "h;hang", "cmdspawn", "h;spawn:g;hang", "cmdline1", "l1;line1;exit:0")
 	}
 	var ctx c15Ctx
 	cerr := context.Canceled
@@ -448,7 +458,7 @@ func c15Exec(sc *c15Scn, cancel string, cancelStep, cancelTick int, log *core.Lo
 			select {
 			case r = <-done:
 				res.Blocked = "returned after cancellation"
-			case <-time.After(20 * time.Second):
+			case <-time.After(10 * time.Second):
 				// not interrupted: let the child die so that the run can end, and report
 				srv.KillAll()
 				r = <-done
@@ -469,6 +479,7 @@ func c15Exec(sc *c15Scn, cancel string, cancelStep, cancelTick int, log *core.Lo
 	res.Steps = steps
 	res.Writes = sink.Writes
 	res.Stdout = sink.String()
+	res.Stderr = errSink.String()
 	if b, ok := fs.Get("cmdsaved"); ok {
 		res.ChildSaved = string(b)
 	}
@@ -522,9 +533,9 @@ func (e c15Engine) Run(scAny any, keep bool) core.Outcome {
 			// never cancelled: must be invisible
 			out.Probe("runs_context_never_closed", 1)
 			if plain != nil {
-				if res.Stdout != plain.Stdout || res.Status != plain.Status || fmt.Sprint(res.Err) != fmt.Sprint(plain.Err) || res.Files != plain.Files || res.ChildSaved != plain.ChildSaved {
-					return &core.Failure{Oracle: "invisible-when-unused", Detail: fmt.Sprintf("%s: ExecuteContext with a context that is never cancelled gives status=%d err=%v stdout=%q files=%s, Execute gives status=%d err=%v stdout=%q files=%s",
-						d, res.Status, res.Err, clip(res.Stdout, 200), clip(res.Files, 200), plain.Status, plain.Err, clip(plain.Stdout, 200), clip(plain.Files, 200))}
+				if res.Stdout != plain.Stdout || res.Status != plain.Status || fmt.Sprint(res.Err) != fmt.Sprint(plain.Err) || res.Files != plain.Files || res.ChildSaved != plain.ChildSaved || res.Stderr != plain.Stderr {
+					return &core.Failure{Oracle: "invisible-when-unused", Detail: fmt.Sprintf("%s: ExecuteContext with a context that is never cancelled gives status=%d err=%v stdout=%q files=%s stderr=%q, Execute gives status=%d err=%v stdout=%q files=%s stderr=%q",
+						d, res.Status, res.Err, clip(res.Stdout, 200), clip(res.Files, 200), clip(res.Stderr, 200), plain.Status, plain.Err, clip(plain.Stdout, 200), clip(plain.Files, 200), clip(plain.Stderr, 200))}
 				}
 			}
 			return nil
@@ -597,7 +608,7 @@ func (e c15Engine) Run(scAny any, keep bool) core.Outcome {
 				return &core.Failure{Oracle: "delivered", Detail: fmt.Sprintf("%s: %d prints had completed when the context was closed, stdout holds %d tokens (-1 = malformed): %q", d, k, ns, clip(res.Stdout, 200))}
 			}
 			out.Probe("delivery_checked_after_cancel", 1)
-		case "blocked-system", "blocked-close", "blocked-getline":
+		case "blocked-system", "blocked-close", "blocked-getline", "blocked-getline-grandchild":
 			if !strings.HasPrefix(res.Stdout, "s1\n") {
 				return &core.Failure{Oracle: "delivered", Detail: fmt.Sprintf("%s: 's1' was printed before the wait but stdout is %q", d, res.Stdout)}
 			}
